@@ -212,7 +212,10 @@ func solveOne(o *Obligation, timeoutS int) {
 			v = va
 		}
 	}
-	if v.Answer == "" && !o.noHeapAx {
+	if o.expectFail && timeoutS > 8 {
+		timeoutS = 8
+	}
+	if v.Answer == "" && !o.noHeapAx && !o.expectFail {
 		// first without the quantified heap axioms, then also with the optional ground
 		// instances (fewer assumptions: a proof stays a proof)
 		o.noHeapAx, o.noOptAx = true, true
@@ -246,7 +249,7 @@ func solveOne(o *Obligation, timeoutS int) {
 		o.Verdict = "undecided"
 	}
 	// undecided: split on the disjuncts of the path condition (one query per path)
-	if o.Verdict == "undecided" && !o.WantSat && o.splitOn == "" && o.Reach.S != "" && !o.Reach.IsTrue() {
+	if o.Verdict == "undecided" && !o.WantSat && o.splitOn == "" && o.Reach.S != "" && !o.Reach.IsTrue() && !o.expectFail {
 		leaves := o.Ctx.reachDisjuncts(o.Reach, 12)
 		if len(leaves) > 1 {
 			all := true
